@@ -46,6 +46,13 @@ fn drop_file(c: &Case, ix: usize) -> Case {
     let path = n.files[ix].path.clone();
     n.files.remove(ix);
     n.path_args.retain(|a| *a != path);
+    // a directory argument (or list line) whose last file went away would name a directory that
+    // no longer exists: a different failure from the one being minimised
+    let remaining: Vec<String> = n.files.iter().map(|f| f.path.clone()).collect();
+    n.path_args.retain(|a| {
+        let d = a.trim_end_matches('/');
+        a.contains('*') || remaining.iter().any(|p| p == d || p.starts_with(&format!("{d}/")))
+    });
     n.faults.retain(|f| f.target != path);
     n.hardlinks.retain(|(a, t)| *a != path && *t != path);
     n.symlinks.retain(|p| *p != path);
